@@ -310,4 +310,43 @@ Fixpoint exact_class (t : ty) : bool :=
 
 End M.
 
+(* ------------------------------------------------------------------------------------------- *)
+(* evaluation support: the measured layout as a finite table (used by tools/memsize_check.py)    *)
+(* ------------------------------------------------------------------------------------------- *)
+Definition rshape_eqb (a b : rshape) : bool :=
+  match a, b with
+  | RRange, RRange | RRangeFrom, RRangeFrom | RRangeTo, RRangeTo
+  | RRangeInclusive, RRangeInclusive | RRangeToInclusive, RRangeToInclusive => true
+  | _, _ => false
+  end.
+Fixpoint ty_eqb (a b : ty) {struct a} : bool :=
+  match a, b with
+  | TLeaf i, TLeaf j => i =? j
+  | TRef x, TRef y | TBox x, TBox y | TSlice x, TSlice y | TVec x, TVec y | TOption x, TOption y
+  | TWrapping x, TWrapping y | TMutex x, TMutex y | TRwLock x, TRwLock y | TBinaryHeap x, TBinaryHeap y => ty_eqb x y
+  | TStr, TStr | TCStr, TCStr | TOsStr, TOsStr | TPath, TPath | TString, TString | TCString, TCString
+  | TOsString, TOsString | TPathBuf, TPathBuf | TPhantom, TPhantom => true
+  | TArray n x, TArray m y => (n =? m) && ty_eqb x y
+  | TTuple xs, TTuple ys =>
+      (fix eql (l : list ty) (r : list ty) {struct l} : bool :=
+         match l, r with
+         | [], [] => true
+         | x :: l', y :: r' => ty_eqb x y && eql l' r'
+         | _, _ => false
+         end) xs ys
+  | TResult x e, TResult y f => ty_eqb x y && ty_eqb e f
+  | TRange s x, TRange u y => rshape_eqb s u && ty_eqb x y
+  | THashMap k v s, THashMap k' v' s' => ty_eqb k k' && ty_eqb v v' && ty_eqb s s'
+  | THashSet x s, THashSet y s' => ty_eqb x y && ty_eqb s s'
+  | _, _ => false
+  end.
+(* size_of from a measured table; a type that was not measured gets an absurd size so that it cannot go unnoticed *)
+Definition unmeasured : N := 1000000007.
+Fixpoint table_sizeof (tbl : list (ty * N)) (t : ty) : N :=
+  match tbl with
+  | [] => unmeasured
+  | (u, n) :: tbl' => if ty_eqb t u then n else table_sizeof tbl' t
+  end.
+Definition b2n (b : bool) : N := if b then 1 else 0.
+
 Arguments flat_next {A} impl cur rest.
